@@ -280,6 +280,168 @@ def tree_worker(job):
     return stats, list(failures.values()), oracle_disagreements[:5], len(oracle_disagreements), unreached, samples
 
 
+
+# ---------------------------------------------------------------------------------------------
+# Binding B: observed (tree, path, result) triples on LARGER random trees, judged by TLC
+# (spec/TracePaths.tla evaluates the steps with the operators of Paths.tla)
+
+ALL_TESTS = ["node()", "*", "a", "b", "text()", "comment()", "processing-instruction()"]
+ALL_PREDS = ["1", "2", "last()", "position()<2", "b", "@a", "not(b)", "text()"]
+AFTER_ATTR = ["parent", "ancestor", "following", "preceding", "child", "descendant",
+              "following-sibling", "preceding-sibling"]   # (attribute-context name tests are a known finding)
+
+
+def random_tree(rnd: random.Random, n: int):
+    """A valid abstract tree with n nodes (attributes directly after their element, distinct
+    attribute names, no adjacent text siblings).  Rendering choice only: TLC re-validates it."""
+    parent, kind = [0], [rnd.choice(['ea', 'eb'])]
+    open_elems = [1]          # stack of open elements (ids)
+    may_attr = {1: {'xa', 'xc'}}
+    last_kind = {1: None}     # kind of the last non-attribute child per element
+    while len(parent) < n:
+        # close elements at random
+        while len(open_elems) > 1 and rnd.random() < 0.3:
+            open_elems.pop()
+        p = open_elems[-1]
+        i = len(parent) + 1
+        choices = ['ea', 'eb', 'ea', 'eb', 'c', 'p']
+        if last_kind[p] != 't':
+            choices += ['t', 't']
+        if may_attr.get(p) and i - 1 == p or (may_attr.get(p) and kind[i - 2] in ('xa', 'xc') and parent[i - 2] == p):
+            choices += sorted(may_attr[p]) * 2
+        k = rnd.choice(choices)
+        parent.append(p)
+        kind.append(k)
+        if k in ('xa', 'xc'):
+            may_attr[p].discard(k)
+        else:
+            may_attr[p] = set()
+            last_kind[p] = k
+            if k in ('ea', 'eb'):
+                open_elems.append(i)
+                may_attr[i] = {'xa', 'xc'}
+                last_kind[i] = None
+    return tuple(parent), tuple(kind)
+
+
+def random_path(rnd: random.Random):
+    steps = []
+    prev_attr = False
+    for j in range(rnd.randint(1, 4)):
+        r = rnd.random()
+        if r < 0.12 and steps:
+            steps.append(dict(a='Paren', pr=rnd.choice(["1", "2", "last()", "b"])))
+            continue
+        ax = rnd.choice(AFTER_ATTR if prev_attr else AXES)
+        t = rnd.choice(ALL_TESTS)
+        if ax == 'attribute':
+            t = rnd.choice(['*', 'a', 'node()'])
+        a = 'Step' if r < 0.5 else 'StepPred' if r < 0.75 else 'DSlash' if r < 0.9 else 'DSlashPred'
+        st = dict(a=a, ax=ax, t=t)
+        if a.endswith('Pred'):
+            # ([@a] on an attribute step asks for the attributes OF AN ATTRIBUTE: known finding class)
+            st['pr'] = rnd.choice([x for x in ALL_PREDS if not (ax == 'attribute' and x == '@a')])
+        steps.append(st)
+        prev_attr = ax == 'attribute'
+    return steps
+
+
+def steps_text(steps) -> str:
+    prefix = '/'
+    for st in steps:
+        if st['a'] == 'Paren':
+            prefix = extend(prefix, 'Paren', (st['pr'],), 'R1')[0]
+        else:
+            args = (st['ax'], st['t']) + ((st['pr'],) if 'pr' in st else ())
+            prefix = extend(prefix, st['a'], args, 'R1')[0]
+    return prefix
+
+
+def trace_worker(job):
+    n, seed, n_trees, n_paths = job
+    rnd = random.Random(seed * 1000003 + n)
+    recs, direct_fail = [], []
+    for ti in range(n_trees):
+        parent, kind = random_tree(rnd, n)
+        docs = {'etree': Doc(parent, kind, 'etree'), 'lxml': Doc(parent, kind, 'lxml')}
+        for pi in range(n_paths):
+            steps = random_path(rnd)
+            text = steps_text(steps)
+            groups: dict = {}
+            for v in ('1.0', '2.0', '3.0', '3.1'):
+                for lib in ('etree', 'lxml'):
+                    obs = ep_eval(docs[lib], 'R1', v, text, 'selector')
+                    groups.setdefault(repr(obs), (obs, []))[1].append(f'{v}/{lib}')
+            lres = lx_eval(docs['lxml'], 'R1', text)
+            for key, (obs, engines) in groups.items():
+                cid = f'{n}-{seed}-{ti}-{pi}-{len(recs)}'
+                case = dict(tree=[parent, kind], root='R1', path=text, parser=engines[0].split('/')[0],
+                            lib=engines[0].split('/')[1], mode='selector', xml=docs['etree'].xml(), engines=engines)
+                if obs and obs[0] == 'err' or any(not isinstance(x, int) for x in obs):
+                    direct_fail.append((case, obs, steps))
+                else:
+                    recs.append(dict(id=cid, p=list(parent), k=list(kind), steps=steps, obs=obs, case=case,
+                                     libxml2=lres if (0 not in obs) else None))
+    return recs, direct_fail
+
+
+def run_traces(chk: core.Check) -> None:
+    import json
+    sizes = [(6, 60, 12), (9, 50, 12), (12, 40, 12)] if chk.tier == 'quick' else \
+        [(6, 200, 20), (9, 200, 20), (12, 150, 20), (16, 100, 20), (24, 40, 20)]
+    jobs = []
+    for n, n_trees, n_paths in sizes:
+        for part in range(4):
+            jobs.append((n, chk.seed * 17 + part, n_trees // 4, n_paths))
+    results = core.pool_map(trace_worker, jobs)
+    by_n: dict = {}
+    for (n, *_), (recs, direct) in zip(jobs, results):
+        by_n.setdefault(n, []).extend(recs)
+        for case, obs, steps in direct:
+            chk.fail(dict(part='trace', outcome='error' if obs and obs[0] == 'err' else 'unknown_item',
+                          axes=','.join(sorted({s.get('ax', '-') for s in steps})), parser=case['parser']),
+                     case, 'a node list', obs, what=f'{case["path"]} on {case["xml"]}')
+    total = 0
+    for n, recs in by_n.items():
+        wd = os.path.join(chk.scratch, f'trace-N{n}')
+        os.makedirs(wd, exist_ok=True)
+        tf = os.path.join(wd, 'trace.ndjson')
+        with open(tf, 'w') as f:
+            for r in recs:
+                f.write(json.dumps(dict(id=r['id'], p=r['p'], k=r['k'], steps=r['steps'], obs=r['obs'])) + '\n')
+        consts = dict(N=n, Kinds={"ea", "eb", "t", "c", "p", "xa", "xc"}, RootCfg='R1', Axes=set(AXES),
+                      Tests=set(ALL_TESTS), Preds=set(ALL_PREDS), ParenPreds={"1", "2", "last()", "b"})
+        cfg = tla.cfg_text(consts, spec='TraceSpec', invariants=['Report'], postcondition='TraceAccepted')
+        r = tla.require_ok(tla.run_tlc('TracePaths', cfg, wd, workers=1, env={'TRACE_FILE': tf}, timeout=3000),
+                           f'TracePaths/N{n}', min_distinct=2 * len(recs))
+        chk.model(f'TracePaths/N{n}', r)
+        byid = {x['id']: x for x in recs}
+        bad = list(tla.printed_values(r.output, 'badtree'))
+        if bad:
+            raise tla.MachineryError(f'random tree generator produced invalid XDM trees: {bad[:3]}')
+        mism = {m[0]: list(m[1]) for m in tla.printed_values(r.output, 'mismatch')}
+        for rec in recs:
+            expected = mism.get(rec['id'], rec['obs'])
+            # second oracle: libxml2 must agree with what the SPEC says (not with the implementation)
+            if rec['libxml2'] is not None and 0 not in expected and rec['libxml2'] != expected:
+                raise tla.MachineryError(f'TracePaths and libxml2 disagree: {rec["case"]["path"]} on {rec["case"]["xml"]}: '
+                                         f'spec {expected} libxml2 {rec["libxml2"]}')
+            if rec['id'] in mism:
+                obs = rec['obs']
+                so, se = set(obs), set(expected)
+                outcome = ('order' if sorted(obs) == sorted(expected) else 'dup' if len(so) < len(obs) and so == se else
+                           'missing' if so < se else 'extra' if so > se else 'wrong')
+                chk.fail(dict(part='trace', outcome=outcome, axes=','.join(sorted({s.get('ax', '-') for s in rec['steps']})),
+                              nodes=n, parser=rec['case']['parser']),
+                         rec['case'], expected, obs, what=f'{rec["case"]["path"]} on {rec["case"]["xml"]}')
+        total += len(recs)
+        chk.sample(dict(trace_record=dict(xml=recs[0]['case']['xml'], path=recs[0]['case']['path'], observed=recs[0]['obs'])))
+        print(f'  traces N={n}: records={len(recs)} mismatches={len(mism)} tlc={r.wall_s:.1f}s', flush=True)
+    chk.add('traces_validated_against_impl', total)
+    chk.add('evaluations', total * 8)
+    chk.coverage['trace_records'] = total
+
+
 def replay_case(case: dict) -> list:
     """Re-evaluate one recorded case on the working tree; returns [] if it now agrees."""
     parent, kind = tuple(case['tree'][0]), tuple(case['tree'][1])
@@ -359,6 +521,7 @@ def run(chk: core.Check) -> None:
                             chk.known_hits[idx] = chk.known_hits.get(idx, 0) + cnt - 1
                             break
         print(f'  {name}: trees={len(trees)} states={r.distinct} edges={n_edges} tlc={r.wall_s:.1f}s replay={time.time()-t0:.1f}s', flush=True)
+    run_traces(chk)
     chk.coverage['unreached_states'] = total_unreached
     chk.coverage['exhaustive'] = True
     chk.coverage['rule'] = ('every transition of the TLC state graph of Paths is one case; non-trivial = target node set has '
